@@ -13,7 +13,8 @@ from vlib import core
 from checks import C15
 
 THEOREMS = ["C16_refines", "C16_views_agree", "C16_last_set", "C16_isolation", "C16_isolation_unwired", "C16_spec",
-            "C16_accessor_refines", "C16_accessor_reads_current", "C16_mounted_current", "C16_frozen_observer", "C16_accessor_spec"]
+            "C16_accessor_refines", "C16_accessor_reads_current", "C16_mounted_current", "C16_frozen_observer", "C16_accessor_spec",
+            "C16_accessor_renders_current_text", "C16_decode_sound"]
 PROPS = "theories/Props/C16.v"
 REGISTRY = {
     "level": "proof",
@@ -29,7 +30,9 @@ REGISTRY = {
             "C16_mounted_current / C16_frozen_observer (Runtime/ContextAcc.v): an accessor of any flavour (9 macros x 10 kinds of "
             "context expression x with/without arguments) created at any point renders the current locale of its context after "
             "any continuation; effects over tracked flavours show it after a flush; the harness creates every accessor through "
-            "the real macro with that flavour.",
+            "the real macro with that flavour. C16_accessor_renders_current_text: the same for an accessor whose output is any "
+            "function of the locale (t_plural!, t_format! families: expected text = fixed-locale macro of the model's current "
+            "locale, read back by decode, C16_decode_sound).",
     "design_ref": "DESIGN.md §5 C16",
     "note": "Trusted: Coq kernel + vm_compute; hand-written model Runtime/Context.v; leptos' scheduler is observed (effects run at "
             "executor ticks), not modelled; harness build = ssr + reactive_graph/effects. No axioms.",
